@@ -560,6 +560,17 @@ func (a *Act) selectStmt(st *State, in *ssa.Select) {
 			ct := s.Chan.Type().Underlying().(*types.Chan)
 			v := tr.freshConst("select_recv", a.sortOf(ct.Elem()))
 			tup = append(tup, v)
+			if ch := a.val(s.Chan); strings.HasPrefix(ch, "(ctx_donechan ") {
+				cx := strings.TrimSuffix(strings.TrimPrefix(ch, "(ctx_donechan "), ")")
+				// the Done channel is readable exactly when the context is done
+				tr.assume(Implies(And(st.reach, Eq(idx, IntLit(int64(i)))), tr.ctxDone(cx)), "a receive from ctx.Done() succeeds only when the context is done")
+				if !in.Blocking && len(in.States) == 1 {
+					tr.assume(Implies(And(st.reach, tr.ctxDone(cx)), Eq(idx, IntLit(int64(i)))), "a non-blocking select takes the ready ctx.Done() case")
+				}
+				if tr.noTimeouts {
+					tr.assume(Implies(st.reach, Not(tr.ctxDone(cx))), "A-TIME: no context ends during the evaluation")
+				}
+			}
 			a.noteRecv(st, a.val(s.Chan), v, Eq(idx, IntLit(int64(i))), a.sortOf(ct.Elem()))
 			tr.eng.noteSelectRecv(a, st, in, i, s, idx, v)
 		} else {
